@@ -52,13 +52,45 @@ theorem canon_of_NL {s : FS} {srcDir : Path} (h : NL s srcDir) (x r : Path)
     exact h pre hpre (List.prefix_or_prefix_of_prefix hpr (List.prefix_append _ _))) hc
   simpa using this
 
+/-- without `..` components, dropping the `.root` components leaves exactly the normal ones -/
+theorem filter_root_eq_map_relOf (path : List Comp) (kind : EntryKind)
+    (h : path.any (fun c => c == .parent) = false) :
+    path.filter (fun c => c != .root) = (relOf ⟨path, kind⟩).map Comp.normal := by
+  induction path with
+  | nil => rfl
+  | cons c rest ih =>
+    rw [List.any_cons, Bool.or_eq_false_iff] at h
+    have ih := ih h.2
+    cases c with
+    | normal n =>
+      have : relOf ⟨.normal n :: rest, kind⟩ = n :: relOf ⟨rest, kind⟩ := by
+        simp only [relOf, List.filterMap_cons]
+      rw [this, List.map_cons, ← ih]
+      rfl
+    | parent => exact absurd h.1 (by decide)
+    | root =>
+      have : relOf ⟨.root :: rest, kind⟩ = relOf ⟨rest, kind⟩ := by
+        simp only [relOf, List.filterMap_cons]
+      rw [this, ← ih]
+      rfl
+
+/-- the key fact behind the fix: an entry that would land on the completion marker and is not
+skipped by `unpackIn` (no `..`) is the archive's own marker entry, which `unpackEntries` skips -/
+theorem isMarkerEntry_of_relOf (pfx : Nat) (e : Entry) (hpar : e.path.any (fun c => c == .parent) = false)
+    (hrel : relOf e = [pfx, 0]) : isMarkerEntry pfx e = true := by
+  obtain ⟨path, kind⟩ := e
+  unfold isMarkerEntry
+  rw [filter_root_eq_map_relOf path kind hpar, hrel]
+  simp only [List.map_cons, List.map_nil, beq_self_eq_true]
+
 /-- what one processed entry does: every path keeps its node, or gets a fresh directory, or is
-the entry's own path and gets a file; the last two only inside the crate directory -/
+the entry's own path and gets a file; the last two only inside the crate directory, and the last
+never at the completion marker -/
 def StepRel (srcDir : Path) (pfx : Nat) (es : List Entry) (s s' : FS) : Prop :=
   ∀ q, lookup s' q = lookup s q ∨
     ((srcDir ++ [pfx]) <+: q ∧
       ((lookup s' q = some .dir ∧ lookup s q = none) ∨
-       (∃ e ∈ es, q = srcDir ++ relOf e ∧ ∃ c, lookup s' q = some (.file c))))
+       (∃ e ∈ es, q = srcDir ++ relOf e ∧ relOf e ≠ [pfx, 0] ∧ ∃ c, lookup s' q = some (.file c))))
 
 theorem StepRel.refl (srcDir : Path) (pfx : Nat) (es : List Entry) (s : FS) :
     StepRel srcDir pfx es s s := fun _ => Or.inl rfl
@@ -76,7 +108,7 @@ theorem StepRel.trans {srcDir : Path} {pfx : Nat} {es : List Entry} {a b c : FS}
   intro q
   rcases h2 q with e2 | ⟨hd, ⟨e2, n2⟩ | hf⟩
   · rw [e2]; exact h1 q
-  · rcases h1 q with e1 | ⟨_, ⟨e1, _⟩ | ⟨_, _, _, _, e1⟩⟩
+  · rcases h1 q with e1 | ⟨_, ⟨e1, _⟩ | ⟨_, _, _, _, _, e1⟩⟩
     · exact Or.inr ⟨hd, Or.inl ⟨e2, e1 ▸ n2⟩⟩
     · rw [e1] at n2; cases n2
     · rw [e1] at n2; cases n2
@@ -85,7 +117,7 @@ theorem StepRel.trans {srcDir : Path} {pfx : Nat} {es : List Entry} {a b c : FS}
 theorem StepRel.NL {srcDir : Path} {pfx : Nat} {es : List Entry} {a b : FS}
     (h : StepRel srcDir pfx es a b) (hn : NL a srcDir) : NL b srcDir := by
   intro q hq hc
-  rcases h q with e | ⟨_, ⟨e, _⟩ | ⟨_, _, _, _, e⟩⟩
+  rcases h q with e | ⟨_, ⟨e, _⟩ | ⟨_, _, _, _, _, e⟩⟩
   · rw [e]; exact hn q hq hc
   · rw [e]; exact notSym_dir
   · rw [e]; exact notSym_file _
@@ -99,7 +131,7 @@ theorem StepRel.outside {srcDir : Path} {pfx : Nat} {es : List Entry} {a b : FS}
 
 theorem StepRel.present {srcDir : Path} {pfx : Nat} {es : List Entry} {a b : FS}
     (h : StepRel srcDir pfx es a b) (q : Path) (hq : lookup a q ≠ none) : lookup b q ≠ none := by
-  rcases h q with e | ⟨_, ⟨e, _⟩ | ⟨_, _, _, _, e⟩⟩
+  rcases h q with e | ⟨_, ⟨e, _⟩ | ⟨_, _, _, _, _, e⟩⟩
   · rw [e]; exact hq
   · rw [e]; simp
   · rw [e]; simp
@@ -119,21 +151,43 @@ theorem finish_spec (s1 : FS) (srcDir : Path) (pfx : Nat) (e : Entry) (s' : FS)
       have htarget : cp ++ [(relOf e).getLastD 0] = srcDir ++ relOf e := by
         rw [hcp', List.append_assoc, dropLast_getLastD _ (by simp [hrel])]
       rw [htarget] at h
-      injection h with h
-      subst h
+      unfold writeNode at h
       intro q
       cases hkind : e.kind with
       | symlink t => exact absurd hkind (hk t)
       | file c =>
-        simp only [writeNode, lookup_set]
+        rw [hkind] at h
+        have hfile : s' = set s1 (srcDir ++ relOf e) (.file c) := by
+          cases hl : lookup s1 (srcDir ++ relOf e) with
+          | none => rw [hl] at h; injection h with h; exact h.symm
+          | some n =>
+            rw [hl] at h
+            cases n with
+            | dir => cases h
+            | file c' => injection h with h; exact h.symm
+            | symlink l => injection h with h; exact h.symm
+        subst hfile
+        simp only [lookup_set]
         by_cases hq : q = srcDir ++ relOf e
         · right; exact ⟨hq, Or.inr ⟨c, by simp [hq]⟩⟩
         · left; simp [hq]
       | dir =>
-        simp only [writeNode]
+        rw [hkind] at h
         cases hl : lookup s1 (srcDir ++ relOf e) with
-        | some n => left; rfl
+        | some n =>
+          rw [hl] at h
+          cases n with
+          | dir => injection h with h; subst h; left; rfl
+          | file c' => cases h
+          | symlink l =>
+            simp only at h
+            split at h
+            · injection h with h; subst h; left; rfl
+            · cases h
         | none =>
+          rw [hl] at h
+          injection h with h
+          subst h
           simp only [lookup_set]
           by_cases hq : q = srcDir ++ relOf e
           · right; exact ⟨hq, Or.inl ⟨by simp [hq], hq ▸ hl⟩⟩
@@ -141,12 +195,18 @@ theorem finish_spec (s1 : FS) (srcDir : Path) (pfx : Nat) (e : Entry) (s' : FS)
   · cases h
 
 theorem unpackIn_spec (s : FS) (srcDir : Path) (pfx : Nat) (e : Entry) (s' : FS)
-    (hNL : NL s srcDir) (hp : hasPrefix pfx e = true) (hk : ∀ t, e.kind ≠ .symlink t)
+    (hNL : NL s srcDir) (hp : hasPrefix pfx e = true) (hm : isMarkerEntry pfx e = false)
+    (hk : ∀ t, e.kind ≠ .symlink t)
     (h : unpackIn s srcDir e = .ok s') : StepRel srcDir pfx [e] s s' := by
   rw [unpackIn_eq] at h
   split at h
   · injection h with h; subst h; exact StepRel.refl _ _ _ _
-  · split at h
+  · rename_i hpar
+    have hnm : relOf e ≠ [pfx, 0] := by
+      intro hrel
+      rw [isMarkerEntry_of_relOf pfx e (Bool.eq_false_iff.mpr hpar) hrel] at hm
+      cases hm
+    split at h
     · injection h with h; subst h; exact StepRel.refl _ _ _ _
     · obtain ⟨tl, hrel⟩ := relOf_of_hasPrefix pfx e hp
       have hf := finish_spec _ srcDir pfx e s' (NL_mkdirs hNL srcDir _) tl hrel hk h
@@ -164,7 +224,7 @@ theorem unpackIn_spec (s : FS) (srcDir : Path) (pfx : Nat) (e : Entry) (s' : FS)
       · rcases mkdirs_lookup s srcDir (relOf e).dropLast q with e0 | ⟨e0, _⟩
         · exact Or.inr ⟨hdirq hq, Or.inl ⟨e1, by rw [← e0]; exact n1⟩⟩
         · rw [e0] at n1; cases n1
-      · exact Or.inr ⟨hdirq hq, Or.inr ⟨e, by simp, hq, c, e1⟩⟩
+      · exact Or.inr ⟨hdirq hq, Or.inr ⟨e, by simp, hq, hnm, c, e1⟩⟩
 
 theorem unpackEntries_spec (s : FS) (srcDir : Path) (pfx : Nat) (es : List Entry) (k : Nat)
     (hNL : NL s srcDir) (hk : ∀ e ∈ es, ∀ t, e.kind ≠ .symlink t) :
@@ -181,11 +241,16 @@ theorem unpackEntries_spec (s : FS) (srcDir : Path) (pfx : Nat) (es : List Entry
       · rename_i hp
         have hp' : hasPrefix pfx e = true := by simpa using hp
         split
-        · exact StepRel.refl _ _ _ _
-        · rename_i s' hs'
-          have h1 := unpackIn_spec s srcDir pfx e s' hNL hp' (hk e (by simp)) hs'
-          have h2 := ih s' k (h1.NL hNL) (fun e he => hk e (by simp [he]))
-          exact (h1.mono (by intro x hx; simp at hx; simp [hx])).trans
-            (h2.mono (by intro x hx; simp [hx]))
+        · -- the archive's own marker entry: skipped, the tree is unchanged
+          exact (ih s k hNL (fun e he => hk e (by simp [he]))).mono (by intro x hx; simp [hx])
+        · rename_i hm
+          have hm' : isMarkerEntry pfx e = false := by simpa using hm
+          split
+          · exact StepRel.refl _ _ _ _
+          · rename_i s' hs'
+            have h1 := unpackIn_spec s srcDir pfx e s' hNL hp' hm' (hk e (by simp)) hs'
+            have h2 := ih s' k (h1.NL hNL) (fun e he => hk e (by simp [he]))
+            exact (h1.mono (by intro x hx; simp at hx; simp [hx])).trans
+              (h2.mono (by intro x hx; simp [hx]))
 
 end Vet.Unpack
